@@ -93,6 +93,24 @@ fn case(k: usize, n: usize) -> Result<(), String> {
         ensure!(seq.to_bits() == 0.0f64.to_bits(), "sequential dot of all -0.0 products = {:?}", seq);
         ensure!(par.to_bits() == seq.to_bits(), "workers={} length={}: all products -0.0: dot_f64 = {:?} (bits {:#x}) but dot = {:?}", k, n, par, par.to_bits(), seq);
     }
+    // the vector against ITSELF (one object, both arguments): the same sum of squares as against a distinct copy
+    {
+        let (a, _) = integer_data(n);
+        let va = Vector::create(a.clone());
+        let copy = Vector::create(a.clone());
+        let exact: i128 = a.iter().map(|v| (*v as i128) * (*v as i128)).sum();
+        let (aliased, distinct) = (va.dot_f64(&va), va.dot_f64(&copy));
+        ensure!(aliased.to_bits() == (exact as f64).to_bits() && distinct.to_bits() == aliased.to_bits(), "workers={} length={}: v.dot_f64(&v) = {} but the sum of squares is {} (against a copy: {})", k, n, aliased, exact, distinct);
+    }
+    // products that are the smallest subnormal: sums of subnormals are exact, so every partial sum is; the result must be n * 2^-1074
+    {
+        let t = 2f64.powi(-537);
+        let (vx, vw) = (Vector::create(vec![t; n]), Vector::create(vec![t; n]));
+        let (seq, par) = (vx.dot(&vw), vx.dot_f64(&vw));
+        let want = n as f64 * 2f64.powi(-1074);
+        ensure!(seq.to_bits() == want.to_bits(), "sequential dot of {} products 2^-1074 = {:e}", n, seq);
+        ensure!(par.to_bits() == seq.to_bits(), "workers={} length={}: subnormal products: dot_f64 = {:e} but dot = {:e}", k, n, par, seq);
+    }
     // call sequences on one thread: after a long call, shorter ones (fewer elements than workers, none at all) must not see stale state
     for m in [0usize, k.saturating_sub(1).min(n), 1usize.min(n)] {
         let (a, b) = integer_data(m);
@@ -106,7 +124,7 @@ fn case(k: usize, n: usize) -> Result<(), String> {
 fn main() {
     let ctx = Ctx::from_args("C16");
     ctx.level("model_checking");
-    ctx.rule("Configuration sweep (guard off, real OS threads): every worker count k = 1..min(16, CPUs available) - set through the CPU affinity of the calling thread and confirmed by num_cpus::get() == k - x every length 0..=200: integer-valued data must be bit-identical to the sequential dot and to an exact i128 dot product; reassociation-sensitive data must stay within 4 n eps sum|a_i b_i| and be bit-identical over repeated calls; one infinite, NaN or 1e308 entry among small integers (a value every association agrees on) must give the sequential result; data whose products are inexact but whose rounded products have exact partial sums, and data whose products are all -0.0, must be bit-identical to the sequential dot; each case ends with a sequence of shorter calls (length 0, < workers, 1) on the same thread, which must be exact (no state carried between calls). Non-trivial: lengths below, equal to, above and not divisible by the worker count with k >= 2.");
+    ctx.rule("Configuration sweep (guard off, real OS threads): every worker count k = 1..min(16, CPUs available) - set through the CPU affinity of the calling thread and confirmed by num_cpus::get() == k - x every length 0..=200: integer-valued data must be bit-identical to the sequential dot and to an exact i128 dot product; reassociation-sensitive data must stay within 4 n eps sum|a_i b_i| and be bit-identical over repeated calls; one infinite, NaN or 1e308 entry among small integers (a value every association agrees on) must give the sequential result; data whose products are inexact but whose rounded products have exact partial sums, and data whose products are all -0.0 or all the smallest subnormal, must be bit-identical to the sequential dot; the vector against itself (one object) equals the sum of squares; each case ends with a sequence of shorter calls (length 0, < workers, 1) on the same thread, which must be exact (no state carried between calls). Non-trivial: lengths below, equal to, above and not divisible by the worker count with k >= 2.");
     ctx.assume("the sweep runs free (uncontrolled OS scheduling): it decides the configuration/length quantifiers; scheduling independence is decided by the shuttle exploration");
     let cpus = allowed_cpus();
     let kmax = cpus.len().min(16);
